@@ -13,6 +13,8 @@ INTERNAL = ("NoTransition", "Assert", "Raise", "no-instance", "second-instance")
 # kind of finding -> (property rule, explanation)
 KINDS = {
     "two-connections": "a second connection is selected while one is in use",
+    "connection-not-released": "Inbound / Outbound are handed a new connection without having been told to stop using the previous one "
+                               "(Outbound's unsent queue is stale: nothing is replayed, later writes pile up behind it)",
     "second-live-connector": "a new generation is started while the previous Connector is still racing",
     "pending-outlives-connector": "a pending connection of the previous generation survives into the next one",
     "stopped-with-live-connector": "the Manager has stopped but its Connector is still racing",
